@@ -39,13 +39,32 @@ def run(chk):
         tf = work / ("e%d.utb" % i)
         tf.write_text(text)
         lists.append("unicode.dis," + str(tf))
+    # tables with several stages: what a later stage does with the maps of the earlier ones must not depend on which optional
+    # arguments were passed - shipped ones and generated ones (0-3 literal rules per stage, both directions)
+    ms = safety.multistage_tables("fwd")
+    rng.fork("ms").shuffle(ms)
+    multi = set(ms[:6 if quick else 10 ** 6])
+    lists += [t for t in multi if t not in lists]
+    for i in range(10 if quick else 200):
+        r = rng.fork(("mp", i))
+        entries, rules, letters = tablegen.gen_c06_table(r, directions=("noback", "nofor"))
+        tf = work / ("m%d.utb" % i)
+        tf.write_text(tablegen.pass_table_text(entries, rules))
+        lists.append(str(tf))
+        multi.add(str(tf))
     for tl in lists:
         r = rng.fork(("cases", tl))
         fwd = []
         for i in range(8 if quick else 40):
-            inp = [c for c in (safety.gen_sentence(r, 28) if i % 2 else safety.gen_input(r, 28)) if c] or [97, 98]
+            if "/m" in tl and tl.endswith(".utb") and "/work-" in tl:
+                inp = [r.choice([97, 98, 99, 100, 32]) for _ in range(r.range(2, 9))]
+            else:
+                inp = [c for c in (safety.gen_sentence(r, 28) if i % 2 else safety.gen_input(r, 28)) if c] or [97, 98]
             mode = r.choice([0, 0, 1, 4, 128, 256, 4 | 64])       # no compbrlAtCursor / compbrlLeftCursor
             outlen = r.choice([4 * len(inp) + 10, 4 * len(inp) + 10, r.range(1, len(inp) + 2), len(inp)])
+            if tl in multi and i % 2:
+                # a capacity that some stage behind the first one runs into
+                outlen = r.range(1, 2 * len(inp))
             fwd.append((inp, mode, outlen, r.range(0, len(inp) - 1)))
         lines = []
         for inp, mode, outlen, cur in fwd:
@@ -54,6 +73,8 @@ def run(chk):
                                              typeform=[0] * len(inp) if pres & 1 else None))
             lines.append(trans.case_line("S", mode, inp, outlen))
             lines.append(trans.case_line("P", mode, inp, outlen))
+            lines.append(trans.case_line("Q", mode, inp, outlen))              # hyphen arrays, no inputPos
+            lines.append(trans.case_line("Q", mode, inp, outlen, presence=8))  # hyphen arrays and inputPos
         rs = trans.run_cases(exe, tl, lines, exact=1, env=env, timeout=600)
         # cursor sweep: the cursor at EVERY position of the input (with and without the position arrays) against no cursor
         sweep, smeta = [], []
@@ -69,9 +90,10 @@ def run(chk):
             judge(chk, tl, "forward-cursor-sweep", inp, mode, outlen, ss[a:a + n], sweep[a:a + n])
         blines, bmeta = [], []
         for j, (inp, mode, outlen, cur) in enumerate(fwd):
-            grp = rs[34 * j:34 * j + 34]
-            glines = lines[34 * j:34 * j + 34]
+            grp = rs[36 * j:36 * j + 34]
+            glines = lines[36 * j:36 * j + 34]
             judge(chk, tl, "forward", inp, mode, outlen, grp, glines)
+            judge_prehyphenated(chk, tl, inp, mode, outlen, grp[8], rs[36 * j + 34:36 * j + 36], lines[36 * j + 34:36 * j + 36])
             g0 = grp[0]
             if not g0.crash and g0.ret == 1 and g0.outlen > 0:
                 br = g0.out[:g0.outlen]
@@ -98,6 +120,38 @@ def run(chk):
         chk.violation("proof", "Properties/%s.v no longer checks: %s" % (PID, prove["failed"][:5]),
                       dict(no_failing_input=True, broken=prove["failed"], log=prove["log"][-1500:], gen=gen))
     return chk.finish(prove)
+
+
+def judge_prehyphenated(chk, tl, inp, mode, outlen, ref, qs, qlines):
+    """lou_translatePrehyphenated with hyphen arrays against lou_translate with inputPos (presence pattern 8): same text
+    and lengths; it returns 0 exactly when the position array is not ascending; output mark k is the input mark at
+    inputPos[k] where that is larger than inputPos[k-1] (0 before the first cell), and '0' elsewhere"""
+    if safety.classify(ref) or ref.ret != 1:
+        return
+    ipos = ref.inputPos[:ref.outlen]
+    asc = all(b >= a for a, b in zip([0] + ipos, ipos))
+    marks = [49 if (k * 5 + mode) % 3 == 0 else 48 for k in range(len(inp))]
+    want, prev = [], 0
+    for p in ipos:
+        if p < prev:
+            break
+        want.append(marks[p] if p > prev and p < len(marks) else 48)
+        prev = p
+    for q, ql in zip(qs, qlines):
+        bad = safety.classify(q)
+        if bad:
+            chk.violation(bad[0], "%s on %s (prehyphenated)" % (bad[1], tl), dict(table_list=tl, case_lines=[ql]))
+            return
+        got = [b for _, b in q.rules][:len(want)]
+        ok = (q.ret == (1 if asc else 0)) and (q.inlen, q.outlen, q.out[:max(q.outlen, 0)]) == (ref.inlen, ref.outlen, ref.out[:max(ref.outlen, 0)]) \
+            and (not asc or got == want)
+        chk.tally("prehyphenated")
+        if not ok:
+            chk.violation("prehyphenated", "lou_translatePrehyphenated with hyphen arrays differs from lou_translate + inputPos on %s: ret %d "
+                          "(ascending positions: %s), lengths %s vs %s, marks %s, expected %s" % (tl, q.ret, asc, (q.inlen, q.outlen), (ref.inlen, ref.outlen), got, want),
+                          dict(table_list=tl, input=inp, mode=mode, outlen=outlen, case_lines=[ql], impl=[ref.raw, q.raw]))
+            return
+    chk.cov["traces_validated_against_impl"] += len(qs)
 
 
 def judge(chk, tl, direction, inp, mode, outlen, grp, glines):
